@@ -343,20 +343,27 @@ func (l *Linter) LintFiles(filepaths []string, project *Project) ([]*Error, erro
 		ws = append(ws, workspace{path: p})
 	}
 
+	// Resolve project instances of all files before starting to check any of them. It may fail (e.g.
+	// broken config file). Returning the error after checks of preceding files were started would
+	// leave them (and the processes they run) running after this method returned.
+	projs := make([]*Project, len(ws))
+	for i := range ws {
+		projs[i] = project
+		if project == nil {
+			// This method modifies state of l.projects so it cannot be called in parallel.
+			p, err := l.projects.At(ws[i].path)
+			if err != nil {
+				return nil, err
+			}
+			projs[i] = p
+		}
+	}
+
 	eg := errgroup.Group{}
 	for i := range ws {
 		// Each element of ws is accessed by single goroutine so mutex is unnecessary
 		w := &ws[i]
-		proj := project
-		if proj == nil {
-			// This method modifies state of l.projects so it cannot be called in parallel.
-			// Before entering goroutine, resolve project instance.
-			p, err := l.projects.At(w.path)
-			if err != nil {
-				return nil, err
-			}
-			proj = p
-		}
+		proj := projs[i]
 		ac := acf.GetCache(proj) // #173
 		rwc := rwcf.GetCache(proj)
 
